@@ -42,8 +42,8 @@ func init() {
 	ifaceModels = map[string]libModel{}
 	libMods = map[string]func(x *Exec, m *modSet, callee *ssa.Function){
 		"encoding/hex.Decode":   func(x *Exec, m *modSet, _ *ssa.Function) { m.heaps[x.heapName(SBV8)] = true },
-		"sync/atomic.AddUint64": func(x *Exec, m *modSet, _ *ssa.Function) { m.heaps[x.heapName(SBV64)] = true },
-		"sync/atomic.AddInt64":  func(x *Exec, m *modSet, _ *ssa.Function) { m.heaps[x.heapName(SBV64)] = true },
+		"sync/atomic.AddUint64": func(x *Exec, m *modSet, _ *ssa.Function) { m.heaps[x.heapName(types.Typ[types.Uint64])] = true },
+		"sync/atomic.AddInt64":  func(x *Exec, m *modSet, _ *ssa.Function) { m.heaps[x.heapName(types.Typ[types.Int64])] = true },
 		"(*golang.org/x/sync/errgroup.Group).Go": func(x *Exec, m *modSet, _ *ssa.Function) {
 			m.ghost["eg_err"] = true
 		},
